@@ -46,6 +46,7 @@ type World struct {
 	Notes          map[string]int
 	TLSCfg         *tls.Config // server config used by the StartTLS handler
 	SharedCtl      map[string]gldap.Control
+	Opts           SrvOpts
 }
 
 func W() *World {
@@ -212,6 +213,13 @@ func msgIDOf(r *gldap.Request) int64 { return gldap.VMessage(r).GetID() }
 // handler builds the harness handler for a route kind.
 func (w *World) handler(route string) gldap.HandlerFunc {
 	return func(rw *gldap.ResponseWriter, r *gldap.Request) {
+		if route == "default" {
+			// an application may serve StartTLS from its catch-all route
+			if m, ok := gldap.VMessage(r).(*gldap.ExtendedOperationMessage); ok && m.Name == gldap.ExtendedOperationStartTLS {
+				w.startTLSHandler()(rw, r)
+				return
+			}
+		}
 		id := msgIDOf(r)
 		conn := r.ConnectionID()
 		vrt.Atomic(func() {
@@ -383,6 +391,23 @@ func (w *World) StartServer(o SrvOpts) {
 	if err != nil {
 		panic(err)
 	}
+	must := func(e error) {
+		if e != nil {
+			panic(e)
+		}
+	}
+	must(srv.Router(w.buildMux(o)))
+	w.Srv = srv
+	w.Opts = o
+	w.Addr = o.Addr
+	if w.Addr == "" {
+		w.Addr = vnet.DefaultAddr()
+	}
+	w.startRest(o)
+}
+
+// buildMux registers the harness handlers on a fresh Mux.
+func (w *World) buildMux(o SrvOpts) *gldap.Mux {
 	mux, _ := gldap.NewMux()
 	must := func(e error) {
 		if e != nil {
@@ -436,12 +461,10 @@ func (w *World) StartServer(o SrvOpts) {
 			}
 		}))
 	}
-	must(srv.Router(mux))
-	w.Srv = srv
-	w.Addr = o.Addr
-	if w.Addr == "" {
-		w.Addr = vnet.DefaultAddr()
-	}
+	return mux
+}
+
+func (w *World) startRest(o SrvOpts) {
 	if o.NoRun {
 		return
 	}
